@@ -59,7 +59,15 @@ def run(tier, v):
     vlib.write_ndjson(req, [{"op": "db_sigs", "id": 0}])
     vlib.run_hv("db", req, sigs)
     fams = [("hdr4", 1 if tier == "thorough" else 13), ("hdr6", 1 if tier == "thorough" else 7), ("ttl", 1 if tier == "thorough" else 5),
-            ("opt", 1 if tier == "thorough" else 1), ("fopt", 1), ("kind", 1)]
+            ("opt", 1 if tier == "thorough" else 1), ("fopt", 1), ("kind", 1), ("mtu", 1), ("mtu-custom", 1)]
+    # a database whose [mtu] lists are in no particular order, with a value listed under two labels (the first one wins), the
+    # extreme values and neighbours
+    custom_db = "\n".join(["classes = win,unix,other", "[mtu]", "label = Ethernet or modem", "sig = 1500", "sig = 1492", "sig = 576", "sig = 1501",
+                           "label = DSL", "sig = 1492", "sig = 1454", "sig = 1453", "sig = 1456", "label = odd", "sig = 65535", "sig = 100", "sig = 9000", "sig = 1280", "sig = 68",
+                           "label = single", "sig = 1400", "[tcp:request]", "label = s:unix:Any:x", "sig = *:64:0:*:*,*:mss,sok,ts,nop,ws::0"]) + "\n"
+    csigs = os.path.join(wd, "sigs-custom.ndjson")
+    vlib.write_ndjson(req, [{"op": "db_sigs", "id": 0, "db": custom_db}])
+    vlib.run_hv("db", req, csigs)
     maxopts = 4 if tier == "thorough" else 3
     n_cases = n_nontrivial = 0
     texts = {}
@@ -74,9 +82,9 @@ def run(tier, v):
                     return
                 i = len(exp)
                 exp[i] = o
-                f.write(json.dumps({"id": i, "op": "frames", "frames": [o["frame"]]}) + "\n")
+                f.write(json.dumps(dict({"id": i, "op": "frames", "frames": [o["frame"]]}, **({"db": custom_db} if fam == "mtu-custom" else {}))) + "\n")
             r = vlib.tlc("MC_C03", pid=PID, workers=16 if tier == "thorough" else 8, tag_sink=sink, timeout=3000, heap="10g",
-                         env={"SIGS": sigs, "VERIF_FAM": fam, "VERIF_STRIDE": stride, "VERIF_OFFSET": vlib.seed(), "VERIF_MAXOPTS": maxopts})
+                         env={"SIGS": csigs if fam == "mtu-custom" else sigs, "VERIF_FAM": fam.split("-")[0], "VERIF_STRIDE": stride, "VERIF_OFFSET": vlib.seed(), "VERIF_MAXOPTS": maxopts})
         if r.inv_violated:
             raise vlib.ToolError("TcpExtract.tla violates one of its own laws in family %s" % fam)
         states += r.distinct
